@@ -4,6 +4,7 @@ import fxpmath
 from ..env import Fxp, parse_list, tok_list, lims, codes_of, exc_token
 from .. import gen as G
 from . import base
+from ..arith import warm, overwrite_in_place
 
 TRUSTED_BASE = base.TRUSTED_BASE + ['np.binary_repr / str.format("X") / np.base_repr / int(str, base) are modelled by digit-list functions (Model/Digits.lean)']
 ASSUMPTIONS = base.ASSUMPTIONS + ['strings fed back to constructor/call/set_val carry the 0b / 0x prefix (an unprefixed digit string is a decimal numeral for those routes); from_bin takes the unprefixed rendering',
@@ -20,6 +21,14 @@ LEVEL_NOTE = 'Trusted: Lean kernel + standard axioms; NumPy/Python string primit
 
 def mkx(codes, shape, s, n, f):
     big = n >= 64 or any(abs(c) >= 2 ** 63 for c in codes)
+    if not big and shape in (0, 1, 2) and (n + f + len(codes) + codes[0]) % 4 == 0 and (shape != 2 or len(codes) % 2 == 0):
+        # an object with a past (content-determined): born with other codes, rendered and used, then overwritten in its existing buffer
+        lo = -(1 << (n - 1)) if s else 0
+        other = [lo if k % 2 else ((1 << (n - 1)) - 1 if s else (1 << n) - 1) for k in range(len(codes))]
+        arr0 = other[0] if shape == 0 else np.array(other, dtype=np.int64).reshape((2, -1) if shape == 2 else (-1,))
+        x = Fxp(arr0, s, n, f, raw=True)
+        warm(x, extra=(lambda: x.bin(frac_dot=True), lambda: x.hex(), lambda: x.base_repr(2)))
+        return overwrite_in_place(x, codes)
     if shape == 0:
         return Fxp(codes[0], s, n, f, raw=True)
     arr = np.array(codes, dtype=object) if big else np.array(codes, dtype=np.int64)
